@@ -83,7 +83,8 @@ Definition avatar_step (m : mach) (ch : Z) : mout :=
   else if ea m =? 4 then mok (with_e m 0 (eb m) (ec m) (ed m)) (attr_from_u8 t (bice (ps (am m))) (ch mod 256))
   else (* MoveCursor *)
     if eb m =? 1 then MOk (with_e m 3 2 ch (ed m))
-    else if eb m =? 2 then mlift (with_e m 0 (eb m) (ec m) (ed m)) (limit_caret_pos (set_pos t (ec m) ch))
+    else if eb m =? 2 then      (* the two position bytes are 1-based, floored at 0, then clamped to the screen (both fixes) *)
+      mlift (with_e m 0 (eb m) (ec m) (ed m)) (limit_caret_pos (set_pos t (Z.max 0 (ec m - 1)) (Z.max 0 (ch - 1))))
     else MErr m.
 
 (* ---- PCBoard ----------------------------------------------------------------------------------------------- *)
